@@ -2,6 +2,7 @@ package schemas
 
 import (
 	"encoding/json"
+	"errors"
 	"fmt"
 	"io"
 	"os"
@@ -10,6 +11,8 @@ import (
 
 	"github.com/atombender/go-jsonschema/pkg/yamlutils"
 )
+
+var errTrailingData = errors.New("unexpected data after the schema document")
 
 func FromJSONFile(fileName string) (*Schema, error) {
 	f, err := os.Open(fileName)
@@ -26,8 +29,15 @@ func FromJSONFile(fileName string) (*Schema, error) {
 
 func FromJSONReader(r io.Reader) (*Schema, error) {
 	var schema Schema
-	if err := json.NewDecoder(r).Decode(&schema); err != nil {
+
+	dec := json.NewDecoder(r)
+	if err := dec.Decode(&schema); err != nil {
 		return nil, fmt.Errorf("failed to unmarshal JSON: %w", err)
+	}
+
+	// The document is one JSON value: anything but white space after it is malformed input.
+	if _, err := dec.Token(); !errors.Is(err, io.EOF) {
+		return nil, fmt.Errorf("failed to unmarshal JSON: %w", errTrailingData)
 	}
 
 	return &schema, nil
